@@ -28,4 +28,8 @@ CLAIMED = {
    text="Generated task trees up to six levels deep with schedulable and unschedulable leaves (never-working resource, cycles, group allocations, unresolved references), dated containers, containers carrying work attributes and resource groups; the container flags and dates are recomputed bottom-up from the reported leaf values and the ledger is scanned for container tasks and group resources.",
    note="Leaf values are taken as reported (their correctness is the business of C03/C06/C07); trusts the renderer.",
    technique="property-based testing (Hypothesis) with a bottom-up roll-up oracle"),
+ "C07": dict(
+   text="Random projects of the core dialect and the complete enumeration of a bounded universe (2.3 M projects; quick runs a seed-selected 1/64 slice) are scheduled by the real code and by an independent ~200-line reference list scheduler built on the independent calendar; scheduled flag, start and end of every leaf task must be equal. Differential exploration against a reference model: any off-by-one slot, flipped tie-break, misapplied gap or limit shows up as a date difference.",
+   note="Trusts the reference's reading of the documented rule (milestone pre-pass, nearest dated container as lower bound, team = one limit unit per member); horizon-edge tasks compared only if both scheduled.",
+   technique="differential property-based testing + exhaustive bounded enumeration against an independent reference scheduler"),
 }
